@@ -2,5 +2,6 @@ pub mod caps;
 pub mod cpio;
 pub mod digests;
 pub mod fmt;
+pub mod strict;
 pub mod tags;
 pub mod vercmp;
